@@ -1,7 +1,7 @@
 From Coq Require Import List ZArith Lia Bool.
 Import ListNotations.
 Require Import Base Tables Utf8 Tree Recog Driver Inl3e Render Props.
-Require C01a C01b L2BndS NoPanicAll NoUnpFull L2CCfull L2Kind2 Clos12full C07final SafeW RenderWalkProof C17doc Refs12 Rec15 Rec16 Rec17 Rec18 Rec19 PEProof TieGen TieEffects.
+Require C01a C01b L2BndS NoPanicAll NoUnpFull L2CCfull L2Kind2 Clos12full C07final SafeW RenderWalkProof C17doc Refs12 Rec15 Rec16 Rec17 Rec18 Rec19 PEProof.
 Open Scope Z_scope.
 
 (* What is machine-checked of each property whose deciding theorems live in this family, by property.
